@@ -287,6 +287,31 @@ func (c *c09Rig) listAndRead() {
 	e.Probe("listed_and_read_back")
 }
 
+// renewCall is one renewal / refresh through the real client.
+func (c *c09Rig) renewCall(ctx context.Context, op string, allowance, collateral types.Currency) (got rhp4.ContractRevision, err error) {
+	switch op {
+	case "renew":
+		var res rhp4.RPCRenewContractResult
+		res, err = rhp4.RPCRenewContract(ctx, c.tr, c.rs.cm, c.signer, c.cs(), c.prices, c.hw.Address(), c.contract.Revision, proto4.RPCRenewContractParams{
+			ContractID: c.contract.ID, Allowance: allowance, Collateral: collateral, ProofHeight: c.contract.Revision.ProofHeight + 10,
+		})
+		got = res.Contract
+	case "refresh-full":
+		var res rhp4.RPCRefreshContractResult
+		res, err = rhp4.RPCRefreshContractFullRollover(ctx, c.tr, c.rs.cm, c.signer, c.cs(), c.prices, c.hw.Address(), c.contract.Revision, proto4.RPCRefreshContractParams{
+			ContractID: c.contract.ID, Allowance: allowance, Collateral: collateral,
+		})
+		got = res.Contract
+	case "refresh-partial":
+		var res rhp4.RPCRefreshContractResult
+		res, err = rhp4.RPCRefreshContractPartialRollover(ctx, c.tr, c.rs.cm, c.signer, c.cs(), c.prices, c.hw.Address(), c.contract.Revision, proto4.RPCRefreshContractParams{
+			ContractID: c.contract.ID, Allowance: allowance, Collateral: collateral,
+		})
+		got = res.Contract
+	}
+	return
+}
+
 // renew replaces the contract by a renewal or a refresh: the host's roots for
 // the new contract are those of the old one, matching what the new contract
 // commits to; a refused renewal leaves the old contract as it was.
@@ -305,6 +330,56 @@ func (c *c09Rig) renew() {
 	ctx := context.Background()
 	var got rhp4.ContractRevision
 	var rerr error
+	// 1 renewal in 3 is held up while the host waits for the renter's
+	// signatures (the contract is locked by it), and two other RPCs on the same
+	// contract arrive on streams of their own meanwhile
+	contended := e.Chance(1, 3)
+	if contended {
+		reached, gate := make(chan struct{}), make(chan struct{})
+		once := false
+		c.hook = func(_ int, id types.Specifier, step int, st simrhp.Step, o proto4.Object, raw []byte) simrhp.Action {
+			if !once && st.FromRenter && step == 2 && (id == proto4.RPCRenewContractID || id == proto4.RPCRefreshContractID || id == proto4.RPCRefreshPartialID) {
+				once = true
+				close(reached)
+				<-gate
+			}
+			return simrhp.Pass
+		}
+		done := make(chan struct{})
+		var rp any
+		go func() {
+			defer close(done)
+			defer func() { rp = recover() }()
+			got, rerr = c.renewCall(ctx, op, allowance, collateral)
+		}()
+		select {
+		case <-reached:
+			var lerr, aerr error
+			var ares rhp4.RPCAppendSectorsResult
+			root := testSector(e.Intn(10)).root
+			e.Guard("C09.panic", "RPCs on a contract that is being renewed", func() {
+				_, lerr = rhp4.RPCLatestRevision(ctx, c.tr, c.contract.ID)
+				ares, aerr = rhp4.RPCAppendSectors(ctx, c.tr, c.signer, c.cs(), c.prices, c.contract, []types.Hash256{root})
+			})
+			e.Logf("while the %s waits for the renter: latest revision err=%v, append err=%v", op, lerr != nil, aerr != nil)
+			if aerr == nil && len(ares.Sectors) == 1 {
+				c.model = append(c.model, root)
+				c.contract.Revision = ares.Revision
+				e.Probe("append_served_during_renewal")
+			}
+			e.Fault("rpcs-during-held-renewal")
+			close(gate)
+		case <-done:
+			close(gate)
+		}
+		<-done
+		c.hook = nil
+		if rp != nil {
+			panic(rp)
+		}
+		waitQuiet()
+		goto finished
+	}
 	e.Guard("C09.panic", "RPC "+op, func() {
 		switch op {
 		case "renew":
@@ -328,7 +403,8 @@ func (c *c09Rig) renew() {
 		}
 	})
 	waitQuiet()
-	e.Logf("%s with %d roots -> err=%v", op, len(c.model), rerr)
+finished:
+	e.Logf("%s with %d roots (contended=%v) -> err=%v", op, len(c.model), contended, rerr)
 	e.Shape(op, fmt.Sprint(rerr != nil), bucket(len(c.model)))
 	if rerr != nil {
 		// the host's policy may refuse (collateral limits); nothing changed then
@@ -477,7 +553,7 @@ func runC09(e *sim.Env) {
 func init() {
 	register(&Prop{
 		ID: "C09", Run: runC09, Quick: 160, Thorough: 4000, Level: "fault_enumeration",
-		Rule:        "runs 0..63 enumerate (partitioned) every contract size 0-6 x every index sequence with repetition of length 1-3 (plus 'all') passed to the real RPCFreeSectors client x every abort point of the exchange {none, request dropped, first response dropped, stream cut after first response, renter signature dropped / corrupted / truncated mid-message, host signature dropped after the host persisted}, and appends (known and unknown roots) x the same abort points; later runs draw append/free sequences up to 40 sectors with drawn aborts, and renew / refresh (full, partial) the contract in between, after which the new contract's roots have to be the old one's; after every attempt: MetaRoot(host roots) == FileMerkleRoot and count*SectorSize == Filesize of the host's committed revision, an attempt the host did not commit leaves revision and roots byte-identical, a committed one equals the list model, renter success implies the same revision on both sides; roots listed with RPCSectorRoots verify and match, every listed sector reads back; distinct = abstract trace (op, abort kind, outcome, size bucket); all runs non-trivial",
+		Rule:        "runs 0..63 enumerate (partitioned) every contract size 0-6 x every index sequence with repetition of length 1-3 (plus 'all') passed to the real RPCFreeSectors client x every abort point of the exchange {none, request dropped, first response dropped, stream cut after first response, renter signature dropped / corrupted / truncated mid-message, host signature dropped after the host persisted}, and appends (known and unknown roots) x the same abort points; later runs draw append/free sequences up to 40 sectors with drawn aborts, and renew / refresh (full, partial) the contract in between (1 in 3 held up while the host waits for the renter's signatures, with a latest-revision call and an append arriving on other streams meanwhile), after which the new contract's roots have to be the old one's; after every attempt: MetaRoot(host roots) == FileMerkleRoot and count*SectorSize == Filesize of the host's committed revision, an attempt the host did not commit leaves revision and roots byte-identical, a committed one equals the list model, renter success implies the same revision on both sides; roots listed with RPCSectorRoots verify and match, every listed sector reads back; distinct = abstract trace (op, abort kind, outcome, size bucket); all runs non-trivial",
 		Real:        []string{"rhp4.Server", "rhp4 RPC* client functions", "wallet.SingleAddressWallet x2", "chain.Manager", "testutil.EphemeralContractor / EphemeralSectorStore (in-repo reference implementations) behind recording wrappers"},
 		Stub:        []string{"transport: simrhp in-memory streams with typed relay (siamux/QUIC are not the subject)", "disk: simdisk.DB"},
 		Assumptions: []string{"the 'simple list model' is applied to the indices as the real client normalises them (descending, duplicates once)"},
